@@ -913,62 +913,92 @@ func ruleLDR11(c *Ctx) {
 				if mi, ok := target.(*ssa.MakeInterface); ok {
 					target = mi.X
 				}
-				pt, ok := target.Type().Underlying().(*types.Pointer)
-				if !ok {
-					c.Undecided(fnName(fn)+" / decode target", p.InstrPos(ci.(ssa.Instruction)), "decode target is not a pointer the rule can type")
-					continue
-				}
-				n++
-				comps := map[string]*types.Pointer{}
-				pointerComponents(pt.Elem(), "", map[types.Type]bool{}, comps)
-				construct := fmt.Sprintf("%s / decode into %s", fnName(fn), types.TypeString(pt.Elem(), func(pk *types.Package) string { return pk.Name() }))
-				if len(comps) == 0 {
-					c.OK(construct, p.InstrPos(ci.(ssa.Instruction)), "the target type has no pointer components: a JSON null leaves a zero value, never a nil pointer")
-					continue
-				}
-				// every load of such a pointer in the loader functions must be nil-tested before it is dereferenced
-				var bad []string
-				for _, lf := range c.barrierlessLoaderFuncs(e) {
-					for _, b := range lf.Blocks {
-						for _, in := range b.Instrs {
-							v, isVal := in.(ssa.Value)
-							if !isVal {
+				// a decode helper: the target is a parameter, typed at the call sites of the helper
+				var targets []ssa.Value
+				if prm, isPrm := unspill(target).(*ssa.Parameter); isPrm {
+					idx := -1
+					for i, fp := range fn.Params {
+						if fp == prm {
+							idx = i
+						}
+					}
+					if node := p.CallGraph().Nodes[fn]; node != nil && idx >= 0 {
+						for _, in := range node.In {
+							if in.Site == nil || in.Site.Common().StaticCallee() != fn || idx >= len(in.Site.Common().Args) {
 								continue
 							}
-							isComp := false
-							for _, cp := range comps {
-								if types.Identical(v.Type(), cp) {
-									isComp = true
-								}
+							a := in.Site.Common().Args[idx]
+							if mi, ok := a.(*ssa.MakeInterface); ok {
+								a = mi.X
 							}
-							if !isComp {
-								continue
-							}
-							switch x := v.(type) {
-							case *ssa.UnOp:
-								if x.Op != token.MUL {
+							targets = append(targets, a)
+						}
+					}
+				} else {
+					targets = []ssa.Value{target}
+				}
+				if len(targets) == 0 {
+					c.Undecided(fnName(fn)+" / decode target", p.InstrPos(ci.(ssa.Instruction)), "decode target is a parameter and no call site of the helper was found")
+					continue
+				}
+				for _, target := range targets {
+					pt, ok := target.Type().Underlying().(*types.Pointer)
+					if !ok {
+						c.Undecided(fnName(fn)+" / decode target", p.InstrPos(ci.(ssa.Instruction)), "decode target is not a pointer the rule can type")
+						continue
+					}
+					n++
+					comps := map[string]*types.Pointer{}
+					pointerComponents(pt.Elem(), "", map[types.Type]bool{}, comps)
+					construct := fmt.Sprintf("%s / decode into %s", fnName(fn), types.TypeString(pt.Elem(), func(pk *types.Package) string { return pk.Name() }))
+					if len(comps) == 0 {
+						c.OK(construct, p.InstrPos(ci.(ssa.Instruction)), "the target type has no pointer components: a JSON null leaves a zero value, never a nil pointer")
+						continue
+					}
+					// every load of such a pointer in the loader functions must be nil-tested before it is dereferenced
+					var bad []string
+					for _, lf := range c.barrierlessLoaderFuncs(e) {
+						for _, b := range lf.Blocks {
+							for _, in := range b.Instrs {
+								v, isVal := in.(ssa.Value)
+								if !isVal {
 									continue
 								}
-								if _, isAlloc := x.X.(*ssa.Alloc); isAlloc {
-									continue // a local variable's value: judged where it was produced
+								isComp := false
+								for _, cp := range comps {
+									if types.Identical(v.Type(), cp) {
+										isComp = true
+									}
 								}
-							case *ssa.Extract, *ssa.Lookup:
-							default:
-								continue
-							}
-							for _, d := range c.unguardedDerefs(lf, v, 0) {
-								bad = append(bad, d)
+								if !isComp {
+									continue
+								}
+								switch x := v.(type) {
+								case *ssa.UnOp:
+									if x.Op != token.MUL {
+										continue
+									}
+									if _, isAlloc := x.X.(*ssa.Alloc); isAlloc {
+										continue // a local variable's value: judged where it was produced
+									}
+								case *ssa.Extract, *ssa.Lookup:
+								default:
+									continue
+								}
+								for _, d := range c.unguardedDerefs(lf, v, 0) {
+									bad = append(bad, d)
+								}
 							}
 						}
 					}
+					sort.Strings(bad)
+					var paths []string
+					for k := range comps {
+						paths = append(paths, k)
+					}
+					sort.Strings(paths)
+					c.Check(len(bad) == 0, construct, p.InstrPos(ci.(ssa.Instruction)), fmt.Sprintf("pointer components %v are nil-tested before every dereference", paths), fmt.Sprintf("the target type has pointer components %v: a JSON `null` there decodes to a nil pointer, which is dereferenced without a nil test (%s): the loader panics on that input", paths, strings.Join(uniq(bad), "; ")))
 				}
-				sort.Strings(bad)
-				var paths []string
-				for k := range comps {
-					paths = append(paths, k)
-				}
-				sort.Strings(paths)
-				c.Check(len(bad) == 0, construct, p.InstrPos(ci.(ssa.Instruction)), fmt.Sprintf("pointer components %v are nil-tested before every dereference", paths), fmt.Sprintf("the target type has pointer components %v: a JSON `null` there decodes to a nil pointer, which is dereferenced without a nil test (%s): the loader panics on that input", paths, strings.Join(uniq(bad), "; ")))
 			}
 		}
 	}
